@@ -3,6 +3,7 @@ C02 property theorems.  (A) unwinding, (B) exception matching, (C) line table,
 (D) compiler/VM simulation against the statement semantics.
 -/
 import GPy.C02.Sim
+import GPy.C16.Props
 namespace GPy.C02
 
 /-! ## (A) the unwinding loop of `RunFrame` -/
@@ -13,20 +14,23 @@ unwinding loop pops exactly `pre`, stops at `b` and resumes in `resumeState`: th
 restored to `b`'s level, `continue` jumps to the loop start without popping the loop block,
 `break` jumps to the loop's handler with the loop block popped, an exception enters the
 except/finally handler with the six values pushed and an EXCEPT_HANDLER block, any other reason
-enters a finally block with the reason (and return value) pushed. -/
+enters a finally block with the reason (and return value) pushed.  The handled exception
+(`vm.exc`) in the resumed state is `excAfter pre ..`: every EXCEPT_HANDLER block among the popped
+ones has restored the exception saved under it, innermost first (stack discipline); for an
+exception entering a handler it is then saved in turn (the three values under the raised ones). -/
 theorem unwind_spec {W} (vm : VM W) (pre : List Block) (b : Block) (rest : List Block)
     (hb : vm.blocks = pre ++ b :: rest)
     (hpre : ∀ x ∈ pre, Selects x.kind vm.why = false)
     (hsel : Selects b.kind vm.why = true)
     (hok : BlocksOK vm.blocks vm.stack.length)
     (hcont : vm.why = .cont → ∃ d, vm.retval = .int d) :
-    ∃ e, unwind vm = .resume (resumeState vm b rest (stackAfter pre vm.stack) e) := by
+    unwind vm = .resume (resumeState vm b rest (stackAfter pre vm.stack) (excAfter pre vm.stack vm.exc)) := by
   unfold unwind
   rw [hb] at hok ⊢
-  obtain ⟨e, h1, h2⟩ := unwindL_skip pre vm (b :: rest) hb hpre hok
-  refine ⟨e, ?_⟩
+  obtain ⟨h1, h2⟩ := unwindL_skip pre vm (b :: rest) hb hpre hok
   rw [h1]
   have hlvl := BlocksOK_level h2
+  generalize excAfter pre vm.stack vm.exc = e at *
   generalize stackAfter pre vm.stack = S at *
   obtain ⟨pc, st, bl, why, rv, cur, exc, w⟩ := vm
   obtain ⟨k, h, l⟩ := b
@@ -46,7 +50,7 @@ theorem unwind_exits_unchanged {W} (vm : VM W)
   unfold unwind
   have hb : vm.blocks = vm.blocks ++ [] := by simp
   rw [hb] at hok
-  obtain ⟨e, h1, _⟩ := unwindL_skip vm.blocks vm [] hb hnone hok
+  obtain ⟨h1, _⟩ := unwindL_skip vm.blocks vm [] hb hnone hok
   rw [hb, h1]
   exact ⟨_, rfl, rfl, rfl, rfl, rfl, rfl⟩
 
@@ -90,6 +94,37 @@ theorem exc_match_iff_ancestor {α} [DecidableEq α] (H : Hier α) (err : α) :
     (∀ c, givenMatches H err (.one c) = true ↔ Sub H.base err c) ∧
     (∀ cs, givenMatches H err (.tuple cs) = true ↔ Catches H.base err cs) :=
   ⟨fun c => isSubtype_iff H err c, fun cs => givenMatchesL_iff H err cs⟩
+
+/-- **exc_match_iff_ancestor, multiple inheritance.**  `IsSubtype` / `ExceptionGivenMatches` only walk
+the stored `Mro`; for every accepted class hierarchy with any number of bases per class (`Built H tbl`
+of property C16: `tbl` = the C3 linearisations the class statements stored, theorem `c3_complete`)
+the walk answers exactly the reflexive-transitive "is a direct base of" relation `Anc` - so an
+exception is caught by a clause iff one of the named classes is the raised class or one of its
+ancestors along ANY inheritance path, and by no other. -/
+theorem exc_match_iff_ancestor_c3 {H tbl : List (List Nat)} (hb : GPy.C16.Built H tbl) (err : Nat)
+    (herr : err < tbl.length) :
+    (∀ c, givenMatchesM (GPy.C16.linOf tbl) err (.one c) = true ↔ GPy.C16.Anc (GPy.C16.basesOf H) err c) ∧
+    (∀ cs, givenMatchesM (GPy.C16.linOf tbl) err (.tuple cs) = true ↔
+      ∃ c ∈ cs, GPy.C16.Anc (GPy.C16.basesOf H) err c) := by
+  constructor
+  · intro c
+    simp only [givenMatchesM, isSubtypeM, isSubtypeL_iff]
+    exact GPy.C16.c3_complete hb herr c
+  · intro cs
+    simp only [givenMatchesM, givenMatchesLM_iff]
+    constructor
+    · rintro ⟨c, hc, hm⟩; exact ⟨c, hc, (GPy.C16.c3_complete hb herr c).mp hm⟩
+    · rintro ⟨c, hc, hm⟩; exact ⟨c, hc, (GPy.C16.c3_complete hb herr c).mpr hm⟩
+
+/-- the single-inheritance statement is the instance `mroOf = mro H` of the same functions -/
+theorem exc_match_single_is_instance {α} [DecidableEq α] (H : Hier α) (err : α) (sp : ExcSpec α) :
+    givenMatches H err sp = givenMatchesM (mro H) err sp := givenMatches_eq_M H err sp
+
+/-- non-vacuity: in the diamond `K2; K3(K2); K4(K2); K5(K3,K4)` of `c3_diamond_witness` an exception
+of class K5 is caught by `except K4` (second base) and by `except (K1, K2)`, not by `except K1` -/
+example : givenMatchesM (GPy.C16.linOf [[0], [1, 0], [2, 0], [3, 2, 0], [4, 2, 0], [5, 3, 4, 2, 0]]) 5 (.one 4) = true := by decide
+example : givenMatchesM (GPy.C16.linOf [[0], [1, 0], [2, 0], [3, 2, 0], [4, 2, 0], [5, 3, 4, 2, 0]]) 5 (.tuple [1, 2]) = true := by decide
+example : givenMatchesM (GPy.C16.linOf [[0], [1, 0], [2, 0], [3, 2, 0], [4, 2, 0], [5, 3, 4, 2, 0]]) 5 (.one 1) = false := by decide
 
 /-- the documented builtin hierarchy (`ancestors`) is the closure of `Type.Base` -/
 theorem builtin_ancestors_spec (e c : Cls) : c ∈ ancestors e ↔ Sub Cls.base e c := by
@@ -144,22 +179,103 @@ example : addr2line (lnotab [⟨3, 7⟩, ⟨1, 7⟩, ⟨3, 300⟩, ⟨1, 301⟩]
 
 /-- **compS_correct.**  Forward simulation, for every world type `W`, every behaviour of the probes
 (`Prims`: which call raises which class / returns what, iterator lengths, what `__exit__` answers),
-every statement of the fragment {pass, ev(i), return, raise, break, continue, sequences,
-if/elif/else, while(+else), for(+else), try/finally, try/except (1–2 clauses, classes or tuples,
-`as e`, else), with}, every loop/try context and every fuel: if Python's semantics `execS`
+every statement of the fragment {pass, ev(i), return, raise C, raise C(k), raise C from D, raise <int>,
+bare raise, break, continue, sequences, if/elif/else, while(+else), for(+else), try/finally,
+try/except (1–2 clauses, classes or tuples, `as e`, else), with}, every loop/try context, every
+handled exception `hd` in force on entry and every fuel: if Python's semantics `execS`
 finishes `s` from world `w` in world `w'` with outcome `o`, the VM, started at the first
-instruction of `compS ctx pc cur s` with any value stack `st` and block stack `bs`, reaches with the
-*same world* (same path log, same probe calls in the same order) the state `Post` prescribes for
-`o`: fall-through at the end of the code with `st`/`bs` restored and no exception pending;
-`break` / `return v` / exception of class `c` raised on line `ln` pending (`why`, `retval`,
-`curexc` with traceback line `ln`) with block stack `bs`; `continue` at the loop start (directly
-inside the loop) or pending with the loop start in `retval`. -/
-theorem compS_correct {W} (P : Prims W) (code : Code) (fuel : Nat) (s : Stmt) (w w' : W) (o : Outcome)
-    (hx : execS P fuel s w = some (w', o))
-    (ctx : Ctx) (pc cur : Nat) (st : List Val) (bs : List Block) (rv : Val) (ex : ExcInfo)
+instruction of `compS ctx pc cur s` with any value stack `st` and block stack `bs` and with
+`vm.exc` recording `hd`, reaches with the *same world* (same path log, same probe calls in the same
+order) the state `Post` prescribes for `o`: fall-through at the end of the code with `st`/`bs`
+restored and no exception pending; `break` / `return v` / exception of class `c` raised on line
+`ln` pending (`why`, `retval`, `curexc` with traceback line `ln`) with block stack `bs`;
+`continue` at the loop start (directly inside the loop) or pending with the loop start in
+`retval`; and in every case `vm.exc` records `hd` again. -/
+theorem compS_correct {W} (P : Prims W) (code : Code) (fuel : Nat) (s : Stmt) (w w' : W) (o : Outcome) (hd : Handled)
+    (hx : execS P fuel s w hd = some (w', o))
+    (ctx : Ctx) (pc cur : Nat) (st : List Val) (bs : List Block) (rv : Val)
     (hce : compErr ctx pc s = none) (hc : CodeAt code pc (compS ctx pc cur s)) (hinv : CtxInv ctx bs) :
-    ∃ vm', Reach P code ⟨pc, st, bs, .not, rv, {}, ex, w⟩ vm' ∧ Post ctx (pc + len s) st bs o w' vm' :=
-  (sim_all P code fuel).1 s w w' o hx (Cov_all s) ctx pc cur st bs rv ex hce hc hinv
+    ∃ vm', Reach P code ⟨pc, st, bs, .not, rv, {}, hdInfo hd, w⟩ vm' ∧
+      Post ctx (pc + len s) st bs (hdInfo hd) o w' vm' :=
+  (sim_all P code fuel).1 s w w' o hd hx (Cov_all s) ctx pc cur st bs rv (hdInfo hd) rfl hce hc hinv
+
+/-- **handled_exception_restored.**  The exception being handled is a stack discipline in the
+compiled code too: whatever statement `s` is (in particular a `try/except` whose handlers were
+entered, a `try/finally` or `with` an exception passed through, handlers nested in handlers) and by
+whatever route it is left (falling off its end, break, continue, return, an exception that
+propagates out through EXCEPT_HANDLER blocks), the machine's record `vm.exc` of the handled
+exception is afterwards exactly what it was before `s`: the outer one. -/
+theorem handled_exception_restored {W} (P : Prims W) (code : Code) (fuel : Nat) (s : Stmt) (w w' : W) (o : Outcome)
+    (hd : Handled) (hx : execS P fuel s w hd = some (w', o))
+    (ctx : Ctx) (pc cur : Nat) (st : List Val) (bs : List Block) (rv : Val)
+    (hce : compErr ctx pc s = none) (hc : CodeAt code pc (compS ctx pc cur s)) (hinv : CtxInv ctx bs) :
+    ∃ vm', Reach P code ⟨pc, st, bs, .not, rv, {}, hdInfo hd, w⟩ vm' ∧
+      Post ctx (pc + len s) st bs (hdInfo hd) o w' vm' ∧ vm'.exc = hdInfo hd ∧ vm'.blocks = bs := by
+  obtain ⟨vm', hr, hp⟩ := compS_correct P code fuel s w w' o hd hx ctx pc cur st bs rv hce hc hinv
+  exact ⟨vm', hr, hp, hp.2.2.1, hp.2.1⟩
+
+/-- the same at the level of the unwinding loop: when the blocks popped on the way to the block that
+takes the reason start with the EXCEPT_HANDLER block of a handler that was entered with `e0` being
+handled (its three saved values are on the stack just above the block's level), and no further
+EXCEPT_HANDLER block is popped, the handled exception in the resumed state is `e0` again
+(for an exception entering the next handler: `e0` is what that handler saves). -/
+theorem handled_exception_restored_unwind {W} (vm : VM W) (lvl : Nat) (pre : List Block) (b : Block) (rest : List Block)
+    (junk base : List Val) (e0 : ExcInfo)
+    (hb : vm.blocks = (⟨.handler, -1, lvl⟩ :: pre) ++ b :: rest)
+    (hst : vm.stack = junk ++ typeVal e0.type :: e0.value :: .tb e0.tb :: base) (hlvl : base.length = lvl)
+    (hnoh : ∀ x ∈ pre, x.kind ≠ .handler)
+    (hpre : ∀ x ∈ pre, Selects x.kind vm.why = false)
+    (hnot : vm.why ≠ .not)
+    (hsel : Selects b.kind vm.why = true)
+    (hok : BlocksOK vm.blocks vm.stack.length)
+    (hcont : vm.why = .cont → ∃ d, vm.retval = .int d) :
+    unwind vm = .resume (resumeState vm b rest (stackAfter (⟨.handler, -1, lvl⟩ :: pre) vm.stack) e0) := by
+  have hsel' : ∀ x ∈ (⟨.handler, -1, lvl⟩ :: pre : List Block), Selects x.kind vm.why = false := by
+    intro x hx
+    rcases List.mem_cons.mp hx with rfl | hx
+    · cases hw : vm.why <;> simp [Selects]
+    · exact hpre x hx
+  rw [unwind_spec vm _ b rest hb hsel' hsel hok hcont]
+  have hsaved : savedAt lvl vm.stack = e0 := by
+    rw [hst, ← hlvl, savedAt_junk, savedOf_typeVal]
+  simp only [excAfter, if_true, hsaved, excAfter_noHandler pre _ e0 hnoh]
+
+/-- non-vacuity of `handled_exception_restored_unwind`: ValueError (raised on line 7) propagating out of
+the handler of a KeyError (line 3; its saved triple lies under the EXCEPT_HANDLER block) into an
+enclosing try/except block: the handler it enters saves KeyError, not ValueError -/
+def exVM : VM Unit := ⟨7, [.int 1, .cls .KeyError, .excv .KeyError, .tb (some [3])],
+      [⟨.handler, -1, 0⟩, ⟨.except, 20, 0⟩], .exception, .nil,
+      ⟨some .ValueError, .excv .ValueError, some [7]⟩, ⟨some .ValueError, .excv .ValueError, some [7]⟩, ()⟩
+example : ∃ S, unwind exVM = .resume (resumeState exVM ⟨.except, 20, 0⟩ [] S ⟨some .KeyError, .excv .KeyError, some [3]⟩) :=
+  ⟨_, handled_exception_restored_unwind exVM 0 [] ⟨.except, 20, 0⟩ [] [.int 1] [] ⟨some .KeyError, .excv .KeyError, some [3]⟩
+    rfl rfl rfl (by simp) (by simp) (by decide) rfl (by simp [BlocksOK, exVM]) (by simp [exVM])⟩
+
+/-- **bare_raise_reraises_handled.**  In `try: body except M: s; raise`, when `body` raises an
+exception of class `c` (on line `l`) that `M` catches and `s` - any statement, whatever handlers,
+finally clauses and with statements it enters and leaves, whatever exceptions it raises and
+catches inside - completes normally, the bare `raise` re-raises exactly that exception: class `c`,
+traceback line `l`; not an exception handled (and finished with) inside `s`.  (`fuel + 1` for the
+body, `fuel` for `s`: the fuels the `try` statement hands them when run with `fuel + 2`.) -/
+theorem bare_raise_reraises_handled {W} (P : Prims W) (code : Code) (fuel : Nat) (ln k : Nat) (body s : Stmt) (m : Matcher)
+    (w w1 w2 : W) (c : Cls) (l : Nat) (hd : Handled)
+    (hb : execS P (fuel + 1) body w hd = some (w1, .exc c l)) (hm : Catches Cls.base c m.classes)
+    (hs : execS P fuel s w1 (some (c, l)) = some (w2, .normal))
+    (ctx : Ctx) (pc cur : Nat) (st : List Val) (bs : List Block) (rv : Val)
+    (hce : compErr ctx pc (.tryE ln body m (.seq s (.reraise k)) none .skip .skip) = none)
+    (hc : CodeAt code pc (compS ctx pc cur (.tryE ln body m (.seq s (.reraise k)) none .skip .skip))) (hinv : CtxInv ctx bs) :
+    ∃ vm', Reach P code ⟨pc, st, bs, .not, rv, {}, hdInfo hd, w⟩ vm' ∧
+      Post ctx (pc + len (.tryE ln body m (.seq s (.reraise k)) none .skip .skip)) st bs (hdInfo hd) (.exc c l) w2 vm' := by
+  have hcat : catches m.classes c = true := (catches_iff _ _).mpr hm
+  have hx : execS P (fuel + 2) (.tryE ln body m (.seq s (.reraise k)) none .skip .skip) w hd = some (w2, .exc c l) := by
+    unfold execS at hb hs ⊢
+    unfold execT
+    simp only [hb, hcat, if_true]
+    unfold execT
+    simp only [hs]
+    cases fuel with
+    | zero => simp [execT] at hs
+    | succ f => simp [execT]
+  exact compS_correct P code (fuel + 2) _ w w2 _ hd hx ctx pc cur st bs rv hce hc hinv
 
 /-- **frame_correct.**  A compiled function body run by `RunFrame` (model `run`) ends exactly as
 the semantics says: same world (path log), `None` / the returned value / the unhandled exception
@@ -185,107 +301,109 @@ theorem no_exception_lost {W} (P : Prims W) (defLine : Nat) (body : Stmt) (code 
 /-- **finally_runs_once.**  Whatever way the body of `try: body finally: fin` ends (normally, break,
 continue, return, exception) the compiled code reaches the world obtained by running `body`
 once and then `fin` exactly once — for every world type, so for every way of counting the probe
-calls of `fin` — and resumes the body's outcome when `fin` ends normally, else takes `fin`'s. -/
+calls of `fin` — and resumes the body's outcome when `fin` ends normally, else takes `fin`'s:
+a `return` / `break` / exception in the finally body replaces (swallows) a pending exception.
+On the exception path `fin` runs with that exception as the handled one (`finHd`). -/
 theorem finally_runs_once {W} (P : Prims W) (code : Code) (fuel : Nat) (ln : Nat) (body fin : Stmt)
-    (w w1 w2 : W) (o1 o2 : Outcome)
-    (hb : execS P fuel body w = some (w1, o1)) (hf : execS P fuel fin w1 = some (w2, o2))
-    (ctx : Ctx) (pc cur : Nat) (st : List Val) (bs : List Block) (rv : Val) (ex : ExcInfo)
+    (w w1 w2 : W) (o1 o2 : Outcome) (hd : Handled)
+    (hb : execS P fuel body w hd = some (w1, o1)) (hf : execS P fuel fin w1 (finHd hd o1) = some (w2, o2))
+    (ctx : Ctx) (pc cur : Nat) (st : List Val) (bs : List Block) (rv : Val)
     (hce : compErr ctx pc (.tryF ln body fin) = none)
     (hc : CodeAt code pc (compS ctx pc cur (.tryF ln body fin))) (hinv : CtxInv ctx bs) :
-    ∃ vm', Reach P code ⟨pc, st, bs, .not, rv, {}, ex, w⟩ vm' ∧ vm'.world = w2 ∧
-      Post ctx (pc + len (.tryF ln body fin)) st bs (if o2 = .normal then o1 else o2) w2 vm' := by
-  have hx : execS P (fuel + 1) (.tryF ln body fin) w = some (w2, if o2 = .normal then o1 else o2) := by
+    ∃ vm', Reach P code ⟨pc, st, bs, .not, rv, {}, hdInfo hd, w⟩ vm' ∧ vm'.world = w2 ∧
+      Post ctx (pc + len (.tryF ln body fin)) st bs (hdInfo hd) (if o2 = .normal then o1 else o2) w2 vm' := by
+  have hx : execS P (fuel + 1) (.tryF ln body fin) w hd = some (w2, if o2 = .normal then o1 else o2) := by
     unfold execS at hb hf ⊢
     unfold execT
     simp only [hb, hf]
     cases o2 <;> simp
-  obtain ⟨vm', hr, hp⟩ := compS_correct P code (fuel + 1) _ w w2 _ hx ctx pc cur st bs rv ex hce hc hinv
+  obtain ⟨vm', hr, hp⟩ := compS_correct P code (fuel + 1) _ w w2 _ hd hx ctx pc cur st bs rv hce hc hinv
   exact ⟨vm', hr, hp.1, hp⟩
 
 /-- **exit_called_once.**  `with cm(i): body`: `__enter__` is called once, then the body runs, then
 `__exit__` is called exactly once — with the exception class if the body raised, with `None`
 otherwise — and the exception is suppressed iff the answer is true (Python truth, not `is True`). -/
 theorem exit_called_once {W} (P : Prims W) (code : Code) (fuel : Nat) (ln i : Nat) (body : Stmt)
-    (w w1 : W) (o1 : Outcome)
-    (hb : execS P fuel body (P.cmEnter w i) = some (w1, o1))
-    (ctx : Ctx) (pc cur : Nat) (st : List Val) (bs : List Block) (rv : Val) (ex : ExcInfo)
+    (w w1 : W) (o1 : Outcome) (hd : Handled)
+    (hb : execS P fuel body (P.cmEnter w i) hd = some (w1, o1))
+    (ctx : Ctx) (pc cur : Nat) (st : List Val) (bs : List Block) (rv : Val)
     (hce : compErr ctx pc (.withS ln i body) = none)
     (hc : CodeAt code pc (compS ctx pc cur (.withS ln i body))) (hinv : CtxInv ctx bs) :
-    ∃ vm', Reach P code ⟨pc, st, bs, .not, rv, {}, ex, w⟩ vm' ∧
+    ∃ vm', Reach P code ⟨pc, st, bs, .not, rv, {}, hdInfo hd, w⟩ vm' ∧
       (match o1 with
        | .exc c l =>
          vm'.world = (P.cmExit w1 i (some c)).1 ∧
-         Post ctx (pc + len (.withS ln i body)) st bs
+         Post ctx (pc + len (.withS ln i body)) st bs (hdInfo hd)
            (if pyTruth (P.cmExit w1 i (some c)).2 then .normal else .exc c l) (P.cmExit w1 i (some c)).1 vm'
        | o => vm'.world = (P.cmExit w1 i none).1 ∧
-         Post ctx (pc + len (.withS ln i body)) st bs o (P.cmExit w1 i none).1 vm') := by
+         Post ctx (pc + len (.withS ln i body)) st bs (hdInfo hd) o (P.cmExit w1 i none).1 vm') := by
   unfold execS at hb
   cases o1 with
   | exc c l =>
-    have hx : execS P (fuel + 1) (.withS ln i body) w =
+    have hx : execS P (fuel + 1) (.withS ln i body) w hd =
         some ((P.cmExit w1 i (some c)).1, if pyTruth (P.cmExit w1 i (some c)).2 then .normal else .exc c l) := by
       unfold execS execT
       simp only [hb]
       by_cases ht : pyTruth (P.cmExit w1 i (some c)).2 = true <;> simp [ht]
-    obtain ⟨vm', hr, hp⟩ := compS_correct P code (fuel + 1) _ w _ _ hx ctx pc cur st bs rv ex hce hc hinv
+    obtain ⟨vm', hr, hp⟩ := compS_correct P code (fuel + 1) _ w _ _ hd hx ctx pc cur st bs rv hce hc hinv
     exact ⟨vm', hr, hp.1, hp⟩
   | normal =>
-    have hx : execS P (fuel + 1) (.withS ln i body) w = some ((P.cmExit w1 i none).1, .normal) := by
+    have hx : execS P (fuel + 1) (.withS ln i body) w hd = some ((P.cmExit w1 i none).1, .normal) := by
       unfold execS execT
       simp only [hb]
-    obtain ⟨vm', hr, hp⟩ := compS_correct P code (fuel + 1) _ w _ _ hx ctx pc cur st bs rv ex hce hc hinv
+    obtain ⟨vm', hr, hp⟩ := compS_correct P code (fuel + 1) _ w _ _ hd hx ctx pc cur st bs rv hce hc hinv
     exact ⟨vm', hr, hp.1, hp⟩
   | brk =>
-    have hx : execS P (fuel + 1) (.withS ln i body) w = some ((P.cmExit w1 i none).1, .brk) := by
+    have hx : execS P (fuel + 1) (.withS ln i body) w hd = some ((P.cmExit w1 i none).1, .brk) := by
       unfold execS execT
       simp only [hb]
-    obtain ⟨vm', hr, hp⟩ := compS_correct P code (fuel + 1) _ w _ _ hx ctx pc cur st bs rv ex hce hc hinv
+    obtain ⟨vm', hr, hp⟩ := compS_correct P code (fuel + 1) _ w _ _ hd hx ctx pc cur st bs rv hce hc hinv
     exact ⟨vm', hr, hp.1, hp⟩
   | cont =>
-    have hx : execS P (fuel + 1) (.withS ln i body) w = some ((P.cmExit w1 i none).1, .cont) := by
+    have hx : execS P (fuel + 1) (.withS ln i body) w hd = some ((P.cmExit w1 i none).1, .cont) := by
       unfold execS execT
       simp only [hb]
-    obtain ⟨vm', hr, hp⟩ := compS_correct P code (fuel + 1) _ w _ _ hx ctx pc cur st bs rv ex hce hc hinv
+    obtain ⟨vm', hr, hp⟩ := compS_correct P code (fuel + 1) _ w _ _ hd hx ctx pc cur st bs rv hce hc hinv
     exact ⟨vm', hr, hp.1, hp⟩
   | ret v =>
-    have hx : execS P (fuel + 1) (.withS ln i body) w = some ((P.cmExit w1 i none).1, (.ret v)) := by
+    have hx : execS P (fuel + 1) (.withS ln i body) w hd = some ((P.cmExit w1 i none).1, (.ret v)) := by
       unfold execS execT
       simp only [hb]
-    obtain ⟨vm', hr, hp⟩ := compS_correct P code (fuel + 1) _ w _ _ hx ctx pc cur st bs rv ex hce hc hinv
+    obtain ⟨vm', hr, hp⟩ := compS_correct P code (fuel + 1) _ w _ _ hd hx ctx pc cur st bs rv hce hc hinv
     exact ⟨vm', hr, hp.1, hp⟩
 
 /-- **handler_first_match.**  When the body of a `try` raises an exception of class `c`, the compiled
 code runs the body of the *first* clause one of whose classes is `c` or an ancestor of `c`
 (`Catches`, the reflexive-transitive base-class relation) — the second clause only if the first
-does not catch — and no clause at all if none catches: then the same exception (class, raising
-line) stays pending, in the world the body left. -/
+does not catch — with that exception as the handled one, and no clause at all if none catches:
+then the same exception (class, raising line) stays pending, in the world the body left. -/
 theorem handler_first_match {W} (P : Prims W) (code : Code) (fuel : Nat) (ln : Nat) (body : Stmt)
     (m1 : Matcher) (h1 : Stmt) (m2 : Matcher) (h2 orelse : Stmt)
-    (w w1 : W) (c : Cls) (l : Nat)
-    (hb : execS P fuel body w = some (w1, .exc c l))
-    (ctx : Ctx) (pc cur : Nat) (st : List Val) (bs : List Block) (rv : Val) (ex : ExcInfo)
+    (w w1 : W) (c : Cls) (l : Nat) (hd : Handled)
+    (hb : execS P fuel body w hd = some (w1, .exc c l))
+    (ctx : Ctx) (pc cur : Nat) (st : List Val) (bs : List Block) (rv : Val)
     (hce : compErr ctx pc (.tryE ln body m1 h1 (some m2) h2 orelse) = none)
     (hc : CodeAt code pc (compS ctx pc cur (.tryE ln body m1 h1 (some m2) h2 orelse))) (hinv : CtxInv ctx bs) :
-    (Catches Cls.base c m1.classes → ∀ w' o, execS P fuel h1 w1 = some (w', o) →
-      ∃ vm', Reach P code ⟨pc, st, bs, .not, rv, {}, ex, w⟩ vm' ∧
-        Post ctx (pc + len (.tryE ln body m1 h1 (some m2) h2 orelse)) st bs o w' vm') ∧
-    (¬ Catches Cls.base c m1.classes → Catches Cls.base c m2.classes → ∀ w' o, execS P fuel h2 w1 = some (w', o) →
-      ∃ vm', Reach P code ⟨pc, st, bs, .not, rv, {}, ex, w⟩ vm' ∧
-        Post ctx (pc + len (.tryE ln body m1 h1 (some m2) h2 orelse)) st bs o w' vm') ∧
+    (Catches Cls.base c m1.classes → ∀ w' o, execS P fuel h1 w1 (some (c, l)) = some (w', o) →
+      ∃ vm', Reach P code ⟨pc, st, bs, .not, rv, {}, hdInfo hd, w⟩ vm' ∧
+        Post ctx (pc + len (.tryE ln body m1 h1 (some m2) h2 orelse)) st bs (hdInfo hd) o w' vm') ∧
+    (¬ Catches Cls.base c m1.classes → Catches Cls.base c m2.classes → ∀ w' o, execS P fuel h2 w1 (some (c, l)) = some (w', o) →
+      ∃ vm', Reach P code ⟨pc, st, bs, .not, rv, {}, hdInfo hd, w⟩ vm' ∧
+        Post ctx (pc + len (.tryE ln body m1 h1 (some m2) h2 orelse)) st bs (hdInfo hd) o w' vm') ∧
     (¬ Catches Cls.base c m1.classes → ¬ Catches Cls.base c m2.classes →
-      ∃ vm', Reach P code ⟨pc, st, bs, .not, rv, {}, ex, w⟩ vm' ∧
-        Post ctx (pc + len (.tryE ln body m1 h1 (some m2) h2 orelse)) st bs (.exc c l) w1 vm') := by
+      ∃ vm', Reach P code ⟨pc, st, bs, .not, rv, {}, hdInfo hd, w⟩ vm' ∧
+        Post ctx (pc + len (.tryE ln body m1 h1 (some m2) h2 orelse)) st bs (hdInfo hd) (.exc c l) w1 vm') := by
   unfold execS at hb
-  have key : ∀ w' o, (if catches m1.classes c then execT P fuel (.run h1) w1
-                      else if catches m2.classes c then execT P fuel (.run h2) w1 else some (w1, .exc c l)) = some (w', o) →
-      ∃ vm', Reach P code ⟨pc, st, bs, .not, rv, {}, ex, w⟩ vm' ∧
-        Post ctx (pc + len (.tryE ln body m1 h1 (some m2) h2 orelse)) st bs o w' vm' := by
+  have key : ∀ w' o, (if catches m1.classes c then execT P fuel (.run h1) w1 (some (c, l))
+                      else if catches m2.classes c then execT P fuel (.run h2) w1 (some (c, l)) else some (w1, .exc c l)) = some (w', o) →
+      ∃ vm', Reach P code ⟨pc, st, bs, .not, rv, {}, hdInfo hd, w⟩ vm' ∧
+        Post ctx (pc + len (.tryE ln body m1 h1 (some m2) h2 orelse)) st bs (hdInfo hd) o w' vm' := by
     intro w' o hk
-    have hx : execS P (fuel + 1) (.tryE ln body m1 h1 (some m2) h2 orelse) w = some (w', o) := by
+    have hx : execS P (fuel + 1) (.tryE ln body m1 h1 (some m2) h2 orelse) w hd = some (w', o) := by
       unfold execS execT
       simp only [hb]
       exact hk
-    exact compS_correct P code (fuel + 1) _ w w' o hx ctx pc cur st bs rv ex hce hc hinv
+    exact compS_correct P code (fuel + 1) _ w w' o hd hx ctx pc cur st bs rv hce hc hinv
   refine ⟨?_, ?_, ?_⟩
   · intro hc1 w' o hh
     have : catches m1.classes c = true := (catches_iff _ _).mpr hc1
@@ -299,6 +417,83 @@ theorem handler_first_match {W} (P : Prims W) (code : Code) (fuel : Nat) (ln : N
     have h2f : ¬ catches m2.classes c = true := fun hh' => hn2 ((catches_iff _ _).mp hh')
     exact key w1 (.exc c l) (by rw [if_neg h1f, if_neg h2f])
 
+/-! ## (E) the traceback names every active call -/
+
+/-- one calling frame `def g(): return f()` (model `run` = RunFrame on `wrapperCode`) -/
+theorem wrapper_frame {W} (P : Prims W) (ln : Nat) (w w1 : W) (r : CallRes) (hcall : P.call w = (w1, r)) (hok : CallOK r) :
+    Exit.toCall w (run P (wrapperCode ln) 4 (initVM w)) = (w1, addCalls [ln] r) := by
+  cases r with
+  | val v =>
+    have hv : v ≠ .nil := hok
+    simp [run, step, wrapperCode, exec, initVM, hcall, frameExit, Exit.toCall, addCalls, hv, ExcInfo.isSet]
+  | exc e =>
+    obtain ⟨hset, t, ht⟩ := hok
+    have hne : ¬ e.type = none := by
+      intro h; simp [ExcInfo.isSet, h] at hset
+    have hs : e.type.isSome = true := hset
+    simp [run, step, wrapperCode, exec, initVM, hcall, frameExit, Exit.toCall, addCalls, ExcInfo.isSet, hne, hs]
+
+/-- **traceback_chain.**  Through any number of calling frames (`lns` = the lines of the calls,
+outermost first) a returned value reaches the outermost caller unchanged and an exception reaches
+it with its class, its value and its traceback extended in front by exactly one entry per active
+call, in call order; no entry is dropped, replaced or reordered. -/
+theorem traceback_chain {W} (P : Prims W) (inner : W → W × CallRes) (lns : List Nat) (w : W) (hok : CallOK (inner w).2) :
+    runChain P inner lns w = ((inner w).1, addCalls lns (inner w).2) := by
+  induction lns with
+  | nil =>
+    simp only [runChain]
+    cases hr : inner w with
+    | mk w1 r =>
+      rw [hr] at hok
+      cases r with
+      | val v => rfl
+      | exc e =>
+        obtain ⟨_, t, ht⟩ := hok
+        obtain ⟨ty, v, tb⟩ := e
+        simp only at ht
+        subst ht
+        simp [addCalls]
+  | cons ln rest ih =>
+    simp only [runChain]
+    have hcall : ({ P with call := runChain P inner rest } : Prims W).call w = ((inner w).1, addCalls rest (inner w).2) := ih
+    rw [wrapper_frame _ ln w _ _ hcall (addCalls_ok rest _ hok)]
+    cases (inner w).2 with
+    | val v => rfl
+    | exc e => simp [addCalls]
+
+/-- the module-level statement `r = f()`: an exception coming out of the call leaves the module
+frame (and so reaches the embedder, `py.RunCode`) with the module's line in front -/
+theorem module_frame {W} (P : Prims W) (ln : Nat) (w w1 : W) (e : ExcInfo) (hcall : P.call w = (w1, .exc e))
+    (hset : e.isSet = true) :
+    run P (moduleCode ln) 6 (initVM w) = some (.exc { e with tb := some (ln :: e.tb.getD []) } w1) := by
+  have hne : ¬ e.type = none := by
+    intro h; simp [ExcInfo.isSet, h] at hset
+  have hs : e.type.isSome = true := hset
+  simp [run, step, moduleCode, exec, initVM, hcall, frameExit, ExcInfo.isSet, hne, hs]
+
+/-- **traceback_names_every_call.**  A function body of the fragment whose semantics lets an
+exception of class `c` raised on line `l` escape, called through any chain of wrapper functions
+(calls on the lines `lns`, outermost first) from a module-level statement on line `mln`: the
+exception the module frame hands to the embedder has the original class and a traceback naming
+the line of the module statement, of every active call, and of the raising statement, in that order. -/
+theorem traceback_names_every_call {W} (P : Prims W) (defLine : Nat) (body : Stmt) (code : Code) (fuel : Nat)
+    (w w' : W) (c : Cls) (l : Nat) (lns : List Nat) (mln : Nat)
+    (hcomp : compileFn defLine body = .ok code)
+    (hx : execFn P fuel body w = some (w', .exc c l)) :
+    ∃ n, run { P with call := runChain P (fun w0 => Exit.toCall w0 (run P code n (initVM w0))) lns } (moduleCode mln) 6 (initVM w)
+      = some (.exc ⟨some c, .excv c, some (mln :: lns ++ [l])⟩ w') := by
+  obtain ⟨n, hn⟩ := no_exception_lost P defLine body code fuel w w' c l hcomp hx
+  refine ⟨n, ?_⟩
+  have hin : Exit.toCall w (run P code n (initVM w)) = (w', .exc ⟨some c, .excv c, some [l]⟩) := by
+    simp only [hn, Exit.toCall]
+  have hch := traceback_chain P (fun w0 => Exit.toCall w0 (run P code n (initVM w0))) lns w
+    (by simp only [hin]; exact ⟨rfl, _, rfl⟩)
+  simp only [hin] at hch
+  have := module_frame { P with call := runChain P (fun w0 => Exit.toCall w0 (run P code n (initVM w0))) lns } mln w w' _ hch rfl
+  simpa [addCalls] using this
+
+example : CallOK (.exc ⟨some .KeyError, .excv .KeyError, some [3]⟩) := ⟨rfl, _, rfl⟩
+
 /-- non-vacuity: a world with probes that always answer 1; `while ev(1): break` compiles, is covered,
 and runs to a normal end -/
 def unitPrims : Prims Unit where
@@ -311,5 +506,12 @@ def unitPrims : Prims Unit where
 example : execFn unitPrims 10 (.whileS 2 1 (.brk 3) .skip) () = some ((), .ret none) := by decide
 example : ∃ code, compileFn 1 (.whileS 2 1 (.brk 3) .skip) = .ok code := ⟨_, rfl⟩
 example : execFn unitPrims 10 (.seq (.ev 2 1) (.raise 3 .KeyError)) () = some ((), .exc .KeyError 3) := by decide
+/-- the seeded scenario: A's handler; inside it B passes through a `finally` and is caught; the bare
+`raise` re-raises A (KeyError raised on line 3), not B -/
+example : execFn unitPrims 20
+    (.tryE 2 (.raise 3 .KeyError) ⟨4, [.KeyError], false⟩
+      (.seq (.tryE 5 (.tryF 6 (.raise 7 .ValueError) (.pass 9)) ⟨10, [.ValueError], false⟩ (.pass 11) none .skip .skip)
+            (.reraise 12)) none .skip .skip) () = some ((), .exc .KeyError 3) := by decide
+example : execFn unitPrims 10 (.reraise 2) () = some ((), .exc .RuntimeError 2) := by decide
 
 end GPy.C02
